@@ -22,9 +22,12 @@ type C06Case struct {
 	Mut    []byte `json:"mut"`
 	Detail string `json:"detail"`
 	Inside bool   `json:"inside"` // cut/inflation strictly inside a field payload, or same-size substitution
+	// Unknown > 0: the encoding carries that many spliced fields the reader's schema does not
+	// declare (cuts / inflations may land inside fields that are skipped, not decoded)
+	Unknown int `json:"unknown,omitempty"`
 }
 
-const C06Rule = "For every struct of the registry and generated value with canonical reference encoding e: (prefix) every/random proper prefix of e; (inflate) one embedded length (string1 byte, string4 word, simple-list/list/map count field) rewritten to remaining+1, remaining+255 or 2^31-1; (subst) one field at any depth replaced by a well-formed field of an inadmissible wire type with the same tag. Oracle: differential against the reference decoder: L = strict decode of the longest prefix made of complete well-formed top-level fields (later optional members at default). Accepted: error, or - only when L exists - success with exactly L. subst: must be an error. Non-trivial = cut/inflation strictly inside a field payload, or substituted type with the same payload size. Distinct = distinct (struct, mutated bytes)."
+const C06Rule = "For every struct of the registry and generated value with canonical reference encoding e: (prefix) every/random proper prefix of e; (inflate) one embedded length (string1 byte, string4 word, simple-list/list/map count field) rewritten to remaining+1, remaining+255, 2^30, 3*2^29 or 2^31-1; for a third of the prefix/inflate cases e additionally carries well-formed unknown fields (all wire types, nested containers, as in C04) so that the cut or inflated length can lie inside a field the reader skips; (subst) one field at any depth replaced by a well-formed field of an inadmissible wire type with the same tag. Oracle: differential against the reference decoder: L = strict decode of the longest prefix made of complete well-formed top-level fields (later optional members at default). Accepted: error, or - only when L exists - success with exactly L. subst: must be an error. Non-trivial = cut/inflation strictly inside a field payload, or substituted type with the same payload size. Distinct = distinct (struct, mutated bytes)."
 
 // lenient computes L for mutated bytes: (value, nil) or (nil, err) when no acceptable
 // successful outcome exists.
@@ -75,6 +78,18 @@ func (r *Registry) drawC06(rt *rapid.T) C06Case {
 	enc := rc.Enc{RecordSites: true}
 	spans := enc.StructBodySpans(sv)
 	e := enc.Buf
+	if kind != "subst" && rapid.IntRange(0, 2).Draw(rt, "withUnknown") == 0 {
+		// the same value as a newer peer would send it: unknown fields (all wire types, nested
+		// containers) spliced between the known members, so that cuts and inflated lengths
+		// also land inside fields the reader has to skip
+		x := &extrasEnc{rt: rt}
+		x.e.RecordSites = true
+		x.body(sv, 0)
+		if x.n > 0 {
+			enc, e, spans = x.e, x.e.Buf, nil
+			c.Unknown = x.n
+		}
+	}
 	if len(e) == 0 {
 		kind = "prefix"
 	}
@@ -112,12 +127,17 @@ func (r *Registry) drawC06(rt *rapid.T) C06Case {
 		}
 		s := enc.Sites[rapid.IntRange(0, len(enc.Sites)-1).Draw(rt, "site")]
 		remaining := len(e) - s.End
-		mode := rapid.IntRange(0, 2).Draw(rt, "mode")
+		mode := rapid.IntRange(0, 4).Draw(rt, "mode")
 		target := int64(remaining + 1)
-		if mode == 1 {
+		switch mode {
+		case 1:
 			target = int64(remaining + 255)
-		} else if mode == 2 {
+		case 2:
 			target = 1<<31 - 1
+		case 3:
+			target = 1 << 30 // twice this no longer fits 32 bits (map entries are two fields each)
+		case 4:
+			target = 3 << 29
 		}
 		var repl []byte
 		switch s.Kind {
@@ -213,8 +233,8 @@ func (r *Registry) RunC06(t *testing.T, st *stat.Stats, quick, thorough int) {
 	stat.Check(t, st, "c06-"+r.Name, stat.N(quick, thorough), r.drawC06, func(c C06Case) *stat.Failure {
 		fp := append([]byte(c.Struct+"|"), c.Mut...)
 		st.Case(fp, c.Inside, func() any {
-			return map[string]any{"struct": c.Struct, "kind": c.Kind, "detail": c.Detail, "mutated_bytes": fmt.Sprintf("% x", clip(c.Mut))}
-		}, r.Name, c.Kind)
+			return map[string]any{"struct": c.Struct, "kind": c.Kind, "detail": c.Detail, "unknown_fields": c.Unknown, "mutated_bytes": fmt.Sprintf("% x", clip(c.Mut))}
+		}, r.Name, c.Kind, map[bool]string{true: "with-unknown-fields", false: "known-fields-only"}[c.Unknown > 0])
 		return r.RunC06Case(c)
 	})
 	// every proper prefix of a few encodings (exhaustive over cut points)
